@@ -74,7 +74,7 @@ class RunStateBinding(Binding):
             "sys": self.sys_members, "run_id": (None, "set"), "mstatus": ("OK", "Error"),
             "prev": (None, "live", "safe", "psafe", "old"), "cap": ("live", "safe", "psafe"), "outs": ("live", "safe", "psafe"),
             "hw": ("unknown", "live", "safe", "psafe"), "clk": ("run", "stopped"), "msched": (False, True),
-            "bad_restore": (None, "psafe", "old"), "cmd": (None,) + tuple(CONTROL), "pend": (None,) + tuple(CONTROL),
+            "bad_restore": (None, "psafe", "old", "none"), "cmd": (None,) + tuple(CONTROL), "pend": (None,) + tuple(CONTROL),
             "pend2": (None,) + tuple(CONTROL),
             "err": (False, True),
         }
@@ -635,6 +635,10 @@ class Explorer:
         if z["prev"] in ("live", "safe", "psafe") and a["prev"] == z["prev"] and (
                 (not a["paused"] and z["paused"]) or a["started"] != z["started"]):
             z["prev"] = "old"
+        if a["paused"] and not z["paused"] and z["started"] and a["started"] and z["outs"] == "psafe" and z["bad_restore"] is None \
+                and "bad_restore" in self.b.track and all(a[f"if_{n}"] is None for n in ("Start", "Stop", "Restart")):
+            # a pause of the running run ended and the safe values that pause had applied are still in place: nothing was restored
+            z["bad_restore"] = "none"
         if not z["paused"] and z["outs"] == "psafe":
             z["outs"] = "safe"      # the pause that applied them is over: they are ordinary safe values now
         z["msched"] = False
@@ -700,6 +704,8 @@ class Explorer:
                         notes.append(f"{n} begins, waits")
                     elif a[k] is not None and z[k] is None:
                         notes.append(f"{n} ends")
+                if not a.get("err") and z.get("err"):
+                    notes.append("method/hardware error -> set_error_state")
                 for k in ("started", "paused", "holding", "sys"):
                     if a[k] != z[k]:
                         notes.append(f"{k}={z[k]}")
